@@ -284,6 +284,22 @@ def stepLine (s : DSt) (w : List String) : DSt × String :=
           let z := b.takeWhile (· != 0)
           (s, s!"R z={(mptHash z).toNat} n={(mptHash b).toNat} log=- | C {fmtCModel s.m} | I {fmtI s.m "0" 0 []} | S z={(hashDjb2 z).toNat} n={(hashDjb2 b).toNat} log=- ; {fmtCSpec s.sp}")
         | none => (s, "bad-op")
+      | ["e", "holdemit", ww] =>
+        -- known finding: an event reaches an outstanding reservation (`invoke .logReply` = undefined behaviour)
+        match parseDec ww with
+        | some wd =>
+          if wd > 9 then (s, "bad-op")
+          else match commandReserve s.m.d.tab wd with
+            | (tab', some idx) =>
+              let id : Id := (((tab'.bind fun t => t.slots[idx]?).map (·.id)).getD 0)
+              let d1 : Disp := { s.m.d with tab := tab' }
+              let r := dispatchEmit d1 (some ⟨id, none⟩) ⟨0, false⟩
+              let m' : St := { s.m with d := r.1 }
+              ({ s with m := m' }, s!"R {match r.2.ret with | .fault => "FAULT" | .val v => s!"ret={v}" | .null => "null"} log=- | C {fmtCModel m'} | I {fmtI m' "0" 0 []} | S * ; *")
+            | (tab', none) =>
+              let m' : St := { s.m with d := { s.m.d with tab := tab' } }
+              ({ s with m := m' }, s!"R refused log=- | C {fmtCModel m'} | I {fmtI m' "null" 0 []} | S refused log=- ; {fmtCSpec s.sp}")
+        | none => (s, "bad-op")
       | ["e", "hold", ww, kw] =>
         match parseDec ww, parseDec kw with
         | some wd, some k =>
